@@ -81,7 +81,7 @@ manifest = {
          "kind_free_text": "bounded-exhaustive sweeps of stateless functions against reference definitions"},
     ],
     "checks": [c for c in out_checks if c["property_id"] in claimed],
-    "notes": "All checks: exit 0 held / exit 1 VIOLATION / exit 2 machinery failure. Known findings: /verif/known_findings.txt. Changes used to evaluate the checks: /verif/seeded/ (127 property-breaking changes, all reported) and /verif/benign/ (40 property-preserving changes, no alarm); see DESIGN.md sections 13 and 14.",
+    "notes": "All checks: exit 0 held / exit 1 VIOLATION / exit 2 machinery failure. Known findings: /verif/known_findings.txt. Changes used to evaluate the checks: /verif/seeded/ (139 property-breaking changes, all reported) and /verif/benign/ (40 property-preserving changes, no alarm); see DESIGN.md sections 13 and 14.",
     "not_applicable": [{"property_id": p, "reason": "check not registered yet (being built; will be claimed)"} for p in sorted(checks) if p not in claimed],
 }
 json.dump(manifest, open(os.path.join(V, "MANIFEST.json"), "w"), indent=1)
